@@ -687,7 +687,7 @@ pub fn gen_invocation(
     };
     if let Some(output) = &output {
         let is_existing_dir_case = output == "existing-dir" || output == "existing.dir";
-        if is_existing_dir_case && backend == Backend::SimFs {
+        if is_existing_dir_case && backend != Backend::Memory {
             extra.push(FsEntry {
                 path: output.clone(),
                 body: Body::Dir,
@@ -695,7 +695,7 @@ pub fn gen_invocation(
         }
         // pre-existing foreign content in the output location
         if !project.input_is_file && rng.chance(1, 2) {
-            if backend == Backend::SimFs {
+            if backend != Backend::Memory {
                 extra.push(FsEntry {
                     path: output.clone(),
                     body: Body::Dir,
@@ -713,7 +713,7 @@ pub fn gen_invocation(
                     body: Body::Text("return 'foreign lua'\n".to_owned()),
                 });
             }
-            if backend == Backend::SimFs && rng.chance(1, 4) {
+            if backend != Backend::Memory && rng.chance(1, 4) {
                 extra.push(FsEntry {
                     path: join(output, "old-empty"),
                     body: Body::Dir,
